@@ -84,7 +84,8 @@ def key_canonicity(rep: Report, prog: Program) -> None:
     for n in ast.walk(fn):
         if isinstance(n, ast.Assign) and len(n.targets) == 1 and isinstance(n.targets[0], ast.Name):
             assigned[n.targets[0].id] = names_in(n.value)
-    for r in [n for n in ast.walk(fn) if isinstance(n, ast.Return) and n.value is not None]:
+    nested_ = {id(x) for d_ in ast.walk(fn) if isinstance(d_, (ast.FunctionDef, ast.Lambda)) and d_ is not fn for x in ast.walk(d_) if x is not d_}
+    for r in [n for n in ast.walk(fn) if isinstance(n, ast.Return) and n.value is not None and id(n) not in nested_]:   # not the returns of a local key function (refAQ24)
         deps = names_in(r.value)
         for _ in range(4):
             for v in list(deps):
@@ -164,6 +165,10 @@ def key_canonicity(rep: Report, prog: Program) -> None:
     # Prefix identity canonicalisation precedes the key
     pn = prog.func("Prefix.__new__")
     first_if = next((s for s in pn.node.body if isinstance(s, ast.If)), None)
+    # `if a: if b: return X` (no else on either) is `if a and b: return X` (refAQ22)
+    if first_if is not None and not first_if.orelse and len(first_if.body) == 1 and isinstance(first_if.body[0], ast.If) and not first_if.body[0].orelse:
+        inner_ = first_if.body[0]
+        first_if = ast.If(test=ast.BoolOp(op=ast.And(), values=[first_if.test, inner_.test]), body=inner_.body, orelse=[])
     txt = ast.unparse(first_if.test).replace(" ", "") if first_if is not None else ""
     # the test may sit in a one-expression predicate of the class: `cls._is_identity(base, exponent)`
     t_ = first_if.test if first_if is not None else None
